@@ -51,6 +51,15 @@ ONE = {
     'C15e': 'the frame stack moves into a threading.local subclass with __slots__ for stack/iter/unused: slots of a threading.local subclass are shared by all threads, concurrent loads interfere',
     'C16e': 'the remote front end reads the state message only when the result value is not None: a target that returns None leaves the parent with the initial user_state',
     'C18e': 'the server tests the context id of a worker request for truth instead of "is not None": workers for a context registered under 0, \'\' or False are created as plain workers without target',
+    'C01e': 'wait() and _get_result() share a new helper _recv_final(): a later wait() that finds the pipe at EOF overwrites the final message an earlier wait() had already received with None - the result is lost',
+    'C04e': 'ProcessWorker.terminate waits for the acknowledgement with get(block=True, timeout=timeout), which ignores the timeout: a child whose control thread cannot run blocks terminate() for ever and the forced kill is never reached',
+    'C05e': 'next_result stops blocking as soon as the worker is closed: after enqueue...; close() the stream looks ended (queue.Empty) while the child is still working',
+    'C06e': 'PersistentProcessWorker._send_result catches Exception around the put and sends the exception object instead: a graceful terminate landing there is swallowed and a bogus item enters the stream',
+    'C08e': 'try_enqueue now returns whether an input was handed over, first_enqueue still reads it as "more data available": a first worker that died unnoticed before run() ends the distribution - PoolError with live, idle workers',
+    'C11e': 'the wait for the control connection peeks the data socket with recv(1, MSG_PEEK): a client that is RESET makes the peek raise ConnectionResetError, which escapes the accept loop and ends the server',
+    'C13e': 'dump/dumps build the pickler through a helper that forwards the protocol only when it is truthy: protocol 0 silently becomes the default protocol',
+    'C17e': 'restart() of a never-used, live, not closed worker returns at once ("nothing to restart"): same child, same id',
+    'C20e': 'ProcessWorker._start waits with a plain recv() for the identity message instead of connection.wait([pipe, sentinel]): a child that dies during start-up blocks the constructor for ever',
     'C19e': 'the registry of active children becomes a dict keyed by worker id (setdefault): a new worker whose id equals that of a dead, not yet pruned one is never registered',
 }
 for d in sorted(glob.glob('/verif/seeded/*/')):
